@@ -19,10 +19,14 @@ from lib import exn_code
 GEN = ["RecfmParams"]
 RULE = ("record lists written as F (lrecl 1..65536), V, VB (random legal blockings incl. blocks of exactly 65535 bytes) and N; "
         "lengths concentrated on 1, 2, 16383-16385, 20000, 32756-32768 (N: straddling the 32768-byte refill boundary), 65531 and random; "
+        "V and VB (single-pass and resumed alike): about half of the files also hold records WITHOUT data bytes (length word 4) - first, between others, last, "
+        "several in a row, nothing but empty records; in VB per block (first / middle / last of a block, a block of empty records only, a block with no record, "
+        "an empty record as the last 4 bytes of a block of exactly 65535 bytes); F and N have no empty records (outside their domains); "
         "resumed reading: F / V / VB files read in 2-5 passes on one reader object (islice of record_iter / rdw_iter / bdw_iter, cut points 0, 1, all-but-one, all, beyond, random; VB record-level cuts at block boundaries, 15% inside a block = outside the domain), each pass must deliver exactly its share; "
         "both io.BufferedReader and io.BytesIO sources; thorough adds all ordered pairs of 19 boundary lengths and all triples of 8 for N. "
         "Branch = 10*format (0 F, 1 V, 2 VB, 3 N, 4/5/6 = F/V/VB resumed) + class: 0 no records, 1/2 in the domain (N: 2 = file longer than the buffer; VB: 2 = some block "
-        "holds several records; F: 2 = lrecl + 4 does not fit a length word), "
+        "holds several records; F: 2 = lrecl + 4 does not fit a length word), 6/7 in the domain with empty records (V, VB: 6 = some record is empty; VB: 7 = some block ENDS "
+        "with an empty record - the input repaired by eee0fb2), "
         "3 / 9 = outside the property's domain (illegal record list / raw or corrupt image) and the implementation equals the model, "
         "4 / 8 (F also 5) = outside the domain and the implementation differs from the model (informational, never an alarm: "
         "the property says nothing there). Non-trivial = at least one record; distinct = distinct case lines.")
@@ -36,7 +40,7 @@ ASSUMPTIONS = [
     "the consumer of RECFM_N calls used(n) exactly once per buffer with the true record length (the theorem's driving sequence)",
 ]
 TRUSTED = ["harness/c05.py: image writer (checked by the judge against Spec.write_*), lossless run-length form of byte strings (enc)",
-           "harness/t1_c05.py: AST shapes of RECFM_N.__init__/record_iter and the struct formats"]
+           "harness/t1_c05.py: AST shapes of RECFM_N.__init__/record_iter, the struct formats and the assert of RECFM_VB._data_iter"]
 
 FMT = {"F": 0, "V": 1, "VB": 2, "N": 3}
 BOUNDARY_N = [1, 2, 16383, 16384, 16385, 20000] + list(range(32756, 32769))
@@ -274,34 +278,84 @@ def gen_F(rng, big):
     return {"fmt": "F", "kind": rng.randrange(2), "lrecl": lrecl, "recs": [rec(rng, lrecl) for _ in range(k)]}
 
 
+def with_empties(rng, lens, p_none):
+    """record lengths -> the same lengths with records of length 0 put in: none, last, first, between two others,
+    two or three in a row (anywhere, the end included), only empty records, or each gap with probability 0.3"""
+    style = 0 if rng.random() < p_none else rng.choice([1, 1, 2, 3, 4, 5, 6])
+    lens = list(lens)
+    if style == 0:
+        return lens
+    if style == 1:
+        return lens + [0]
+    if style == 2:
+        return [0] + lens
+    if style == 3:
+        if len(lens) < 2:
+            return lens + [0]
+        k = rng.randint(1, len(lens) - 1)
+        return lens[:k] + [0] + lens[k:]
+    if style == 4:
+        k = rng.choice([0, len(lens), len(lens), rng.randint(0, len(lens))])
+        return lens[:k] + [0] * rng.randint(2, 3) + lens[k:]
+    if style == 5:
+        return [0] * rng.randint(1, 4)
+    out = []
+    for n in lens:
+        if rng.random() < 0.3:
+            out.append(0)
+        out.append(n)
+    if rng.random() < 0.5:
+        out.append(0)
+    return out
+
+
 def gen_V(rng, big):
     if big:
         lens = [big_len(rng, 65531) for _ in range(rng.randint(1, 2))] + [small_len(rng) for _ in range(rng.randint(0, 4))]
         rng.shuffle(lens)
     else:
         lens = [small_len(rng) for _ in range(rng.randint(0, 14))]
+    lens = with_empties(rng, lens, 0.45)
     return {"fmt": "V", "kind": rng.randrange(2), "recs": [rec(rng, n) for n in lens]}
 
 
 def gen_VB(rng, big):
     blocks = []
+    p_none = 1.0 if rng.random() < 0.35 else 0.5            # a third of the files hold no empty record at all
     for _ in range(rng.randint(0 if not big else 1, 5 if not big else 2)):
-        room = 65535 - 4
-        b = []
+        if p_none < 1.0 and rng.random() < 0.06:
+            blocks.append([])                                 # a block with no record (BDW 4): legal, yields nothing
+            continue
+        lens = []
         style = rng.randrange(4)
         want = rng.randint(1, 9)
-        while len(b) < want and room >= 5:
+        # where the records without data bytes of this block go is drawn first, so that the blocks that are filled
+        # to exactly 65535 bytes stay exactly full with them (each costs its 4-byte descriptor word)
+        probe = with_empties(rng, [1] * want, p_none)
+        n_empty = probe.count(0)
+        only_empty = 1 not in probe
+        room = 65535 - 4 - 4 * n_empty
+        while not only_empty and len(lens) < want and room >= 5:
             if big and style == 0:
                 n = room - 4                                  # one record filling the block to exactly 65535
             elif big and style == 1:
                 n = min(room - 4, big_len(rng, 65527))
-            elif big and style == 2 and len(b) == want - 1:
+            elif big and style == 2 and len(lens) == want - 1:
                 n = room - 4                                  # last record tops the block up to 65535
             else:
                 n = min(room - 4, small_len(rng))
-            b.append(rec(rng, n))
+            lens.append(n)
             room -= n + 4
-        blocks.append(b)
+        # put the drawn pattern of empties around the records actually made (fewer than [want] when the block filled up)
+        out, it = [], iter(lens)
+        for x in probe:
+            if x == 0:
+                out.append(0)
+            else:
+                n = next(it, None)
+                if n is not None:
+                    out.append(n)
+        blocks.append([rec(rng, n) for n in out])
     return {"fmt": "VB", "kind": rng.randrange(2), "blocks": blocks}
 
 
@@ -431,9 +485,25 @@ def fixed_cases():
     yield {"fmt": "VB", "kind": 0, "blocks": [[[65527, 1, 1]], [[1, 2, 3]], [[32760, 3, 5], [32759, 4, 7]]]}
     yield {"fmt": "VB", "kind": 0, "blocks": [[[1, k % 256, 1] for k in range(1500)]]}   # 1500 one-byte records in one block
     yield {"fmt": "VB", "kind": 0, "blocks": [[[1, 7, 1], [65522, 1, 1]]]}               # block of exactly 65535 bytes
-    yield {"fmt": "VB", "kind": 0, "blocks": [["c1", ""]]}                                # block ending in an empty record: outside the domain (AssertionError)
-    yield {"fmt": "VB", "kind": 0, "blocks": [["", "c1"]]}                                # empty record inside a block: outside the domain
-    yield {"fmt": "VB", "kind": 0, "blocks": [[]]}                                        # empty block: outside the domain
+    yield {"fmt": "VB", "kind": 0, "blocks": [["c1", ""]]}                                # block ending in an empty record (AssertionError before eee0fb2)
+    yield {"fmt": "VB", "kind": 1, "blocks": [["0102", ""]]}                              # the witness of C05_VB_empty_last_old_refuted
+    yield {"fmt": "VB", "kind": 0, "blocks": [["", "c1"]]}                                # empty record first in a block
+    yield {"fmt": "VB", "kind": 0, "blocks": [[]]}                                        # a block with no record
+    yield {"fmt": "VB", "kind": 0, "blocks": [[""]]}                                      # nothing but one empty record
+    yield {"fmt": "VB", "kind": 0, "blocks": [["", "c1", "", "c2c3", ""], ["", ""], [], ["c4", "", ""]]}   # first, middle, last, block of empties, empty block, two in a row at the end
+    yield {"fmt": "VB", "kind": 1, "blocks": [["", ""], ["c1"], [""], ["", "c2", ""]]}
+    yield {"fmt": "VB", "kind": 0, "blocks": [[[65523, 1, 1], ""]]}                      # block of exactly 65535 bytes whose last 4 bytes are an empty record
+    yield {"fmt": "VB", "kind": 0, "blocks": [["", [65515, 1, 1], "", ""], ["c1", ""]]}  # the same with empties first and two in a row last
+    yield {"fmt": "VB", "kind": 0, "blocks": [[""] * 16382]}                             # 16382 empty records: a block of 65532 bytes
+    yield {"fmt": "V", "kind": 1, "recs": ["", "", "c1c2", "", "", ""]}
+    yield {"fmt": "V", "kind": 0, "recs": [""]}
+    # resumed reading over empty records
+    yield {"fmt": "V", "kind": 0, "recs": ["", "c1", "", "", "c2c3", ""], "passes": [[0, 1], [1, 2], [0, 2], [1, -1]]}
+    yield {"fmt": "V", "kind": 1, "recs": ["", "", ""], "passes": [[1, 1], [0, 1], [0, -1]]}
+    yield {"fmt": "VB", "kind": 0, "blocks": [["", "c1", ""], ["", ""], ["c2", ""]], "passes": [[0, 3], [1, 2], [0, -1]]}
+    yield {"fmt": "VB", "kind": 1, "blocks": [["c1", ""], [""], [], ["", "c2"]], "passes": [[2, 1], [0, 1], [2, 1], [1, -1]]}
+    yield {"fmt": "VB", "kind": 0, "blocks": [["c1", ""], ["c2", ""]], "passes": [[0, 2], [0, 2], [0, -1]]}
+    yield {"fmt": "VB", "kind": 0, "blocks": [["c1", "", ""], ["c2"]], "passes": [[0, 2], [0, -1]]}   # cut before the last (empty) record of a block: outside the domain
     yield {"fmt": "VB", "kind": 0, "raw": "0008000000000000"}                             # record length word 0: never ends
     yield {"fmt": "VB", "kind": 1, "raw": "000c00000000000000030000"}
     yield {"fmt": "V", "kind": 0, "raw": "00030000c1c2"}                                  # size - 4 = -1: rest of file
@@ -448,7 +518,7 @@ def inputs(ctx):
     for inp in fixed_cases():
         yield "fixed", inp
     scale = 8 if thorough else 1
-    for g, name, n_small, n_big in [(gen_F, "F", 40, 10), (gen_V, "V", 70, 12), (gen_VB, "VB", 70, 10), (gen_N, "N", 40, 70)]:
+    for g, name, n_small, n_big in [(gen_F, "F", 40, 10), (gen_V, "V", 70, 12), (gen_VB, "VB", 100, 12), (gen_N, "N", 40, 70)]:
         for _ in range(n_small * scale):
             yield name + "-small", g(rng, False)
         for _ in range(n_big * scale):
